@@ -467,6 +467,8 @@ int kalign_arr_to_msa(char** input_sequences, int* len, int numseq,struct msa** 
                 seq->alloc_len = len[i]+1;
 
                 MMALLOC(seq->name, sizeof(char)* MSA_NAME_LEN);
+                /* the canonical sort compares names: give every sequence a defined one */
+                snprintf(seq->name, MSA_NAME_LEN, "SEQ%d", i+1);
 
                 MMALLOC(seq->seq, sizeof(char) * seq->alloc_len);
                 MMALLOC(seq->s, sizeof(uint8_t) * seq->alloc_len);
